@@ -43,6 +43,14 @@ pub fn flat(attr: TokenStream, item: TokenStream) -> TokenStream {
     };
     let input = parse_macro_input!(item as DeriveInput);
 
+    // The representation is chosen by `#[flat]` itself: an extra `#[repr(..)]` (e.g. `align(N)`, `packed`)
+    // would change the layout behind the back of the generated `ALIGN` / `SIZE` / offsets.
+    if let Some(attr) = input.attrs.iter().find(|attr| attr.path.is_ident("repr")) {
+        return syn::Error::new_spanned(attr, "`#[repr(..)]` is not allowed on a `#[flat]` type, its representation is defined by `#[flat]`")
+            .to_compile_error()
+            .into();
+    }
+
     match &input.data {
         Data::Struct(_) => {
             assert!(ctx.info.tag_type.is_none(), "`tag_type` is not allowed for `struct`",);
